@@ -61,6 +61,11 @@ class RecDict(dict):
     def reset(self):
         self.reads, self.writes, self.probes = set(), set(), set()
 
+    def touched(self):
+        """Names the evaluation looked at: reads, plus membership tests (the evaluation mapper tests "name in context"
+        first and silently yields None for a variable that is not set - still an attempt to read it)."""
+        return set(self.reads) | {p for p in self.probes if not str(p).startswith(("<func>", "<builtin>"))}
+
 
 def make_recorder(dag, functions, on_statement):
     import numpy as np
@@ -72,9 +77,9 @@ def make_recorder(dag, functions, on_statement):
             ctx.reset()
             self._arrays = {n: (v, v.copy()) for n, v in dict.items(ctx) if isinstance(v, np.ndarray)}
             r = NumpyInterpreter.evaluate_condition(self, stmt)
-            self._guard_reads = set(ctx.reads)
+            self._guard_reads = ctx.touched()
             if not r:
-                on_statement(self, stmt, set(ctx.reads), set(), False)
+                on_statement(self, stmt, ctx.touched(), set(), False)
             return r
 
         def _wrap(self, stmt, f):
@@ -87,7 +92,7 @@ def make_recorder(dag, functions, on_statement):
                     cur = dict.get(ctx, n)
                     if cur is obj and not (np.array_equal(obj, before, equal_nan=True)):
                         writes.add(n)
-                on_statement(self, stmt, set(ctx.reads), writes, True)
+                on_statement(self, stmt, ctx.touched(), writes, True)
 
         def exec_Assign(self, stmt):
             return self._wrap(stmt, NumpyInterpreter.exec_Assign)
@@ -192,18 +197,18 @@ def check_case(case, collect=None):
         v = variants.get((interp._cur_phase, stmt.id))
         if v is not None:
             ctx = interp.context
-            saved = (set(ctx.reads), set(ctx.writes))
+            saved = (set(ctx.reads), set(ctx.writes), set(ctx.probes))
             ctx.reset()
             try:
                 from dagrt.exec_numpy import NumpyInterpreter
                 NumpyInterpreter.evaluate_condition(interp, v)
-                bad = set(ctx.reads) - set(v.get_read_variables()) - set(v.get_written_variables())
+                bad = ctx.touched() - set(v.get_read_variables()) - set(v.get_written_variables())
                 if bad:
                     problems.append("%s with hand-written guard '%s': guard reads %s, declared reads %s" % (
                         kind, v.condition, sorted(bad), sorted(v.get_read_variables())))
             except Exception:
                 pass
-            ctx.reads, ctx.writes = saved
+            ctx.reads, ctx.writes, ctx.probes = saved
 
     interp = make_recorder(dag, make_python_functions(), on_statement)
     interp.set_up(t_start=method["t0"], dt_start=method["dt0"], context=B.initial_context(method))
